@@ -7,55 +7,147 @@ Open Scope Z_scope.
 Lemma run_app V a b s : run V (a ++ b) s = run V b (run V a s).
 Proof. unfold run. apply fold_left_app. Qed.
 
-(* ---------- the scene is never written while proxies are enabled ---------- *)
-Lemma step_sim_keeps V s o v : sim_op o = true -> proxy s = Some v ->
-  orig (step V s o) = orig s /\ exists v', proxy (step V s o) = Some v'.
+(* ---------- what an operation of a running simulation can touch ---------- *)
+Definition static (s s':state) : Prop :=
+  ns_orig s' = ns_orig s /\ ns_samp s' = ns_samp s /\ exists v', proxy s' = Some v'.
+
+Lemma with_view_keeps s f v : proxy s = Some v -> orig (with_view s f) = orig s /\ static s (with_view s f).
+Proof. intros Hp. unfold with_view, static. rewrite Hp. cbn. eauto. Qed.
+
+Lemma stop_keeps V k s v : proxy s = Some v -> orig (stop V k s) = orig s /\ static s (stop V k s).
 Proof.
-  intros Ho Hp. destruct o; try discriminate; cbn [step].
-  - unfold write. rewrite Hp. cbn. eauto.
-  - destruct (stack s) as [|top rest]; [eauto|].
-    unfold write, set_stack. cbn [proxy]. rewrite Hp. cbn. eauto.
-  - unfold set_stack. cbn. eauto.
-  - destruct (stack s) as [|top rest]; [eauto|].
-    unfold set_stack, with_view. rewrite Hp. cbn. eauto.
+  intros Hp. unfold stop, static. destruct (table_of k (running s)); [|eauto].
+  unfold set_toptab, set_running, with_view. rewrite Hp. cbn. eauto.
 Qed.
 
-Lemma run_sim_keeps V ops : forallb sim_op ops = true -> forall s v, proxy s = Some v ->
-  orig (run V ops s) = orig s /\ exists v', proxy (run V ops s) = Some v'.
+Lemma stops_keep V l : forall s v, proxy s = Some v ->
+  let s' := fold_left (fun acc c => stop V (sid c) acc) l s in orig s' = orig s /\ static s s'.
 Proof.
-  induction ops as [|o ops IH]; intros Hall s v Hp; [cbn; eauto|].
-  cbn [forallb] in Hall. apply andb_true_iff in Hall as [Ho Hall].
-  destruct (step_sim_keeps V s o v Ho Hp) as [Horig [v' Hp']].
-  change (run V (o :: ops) s) with (run V ops (step V s o)).
-  destruct (IH Hall _ _ Hp') as [H1 H2]. rewrite H1, Horig. auto.
+  induction l as [|c l IH]; intros s v Hp; cbn; [unfold static; eauto|].
+  destruct (stop_keeps V (sid c) s v Hp) as [H1 [H2 [H3 [v' H4]]]].
+  destruct (IH _ _ H4) as [G1 [G2 [G3 G4]]]. cbn in G1, G2, G3, G4.
+  unfold static. rewrite G1, G2, G3, H1, H2, H3. auto.
 Qed.
 
-(* Whatever the simulation does (writes by behaviours and the simulator, overrides, nested
-   scenarios) and however it ends, the scene's objects read the same afterwards *)
-Lemma finish_after_sim ops s v : forallb sim_op ops = true -> proxy s = Some v ->
-  orig (run fixed (ops ++ [Finish]) s) = orig s.
+Lemma stop_all_keeps V s v : proxy s = Some v -> orig (stop_all V s) = orig s /\ static s (stop_all V s).
+Proof. intros Hp. unfold stop_all. exact (stops_keep V (running s) s v Hp). Qed.
+
+Lemma step_keeps V s a v : proxy s = Some v -> not_begin_finish a = true ->
+  static s (step V s a) /\
+  forall o, not_create o a = true -> forall p, orig (step V s a) o p = orig s o p.
 Proof.
-  intros Hall Hp. rewrite run_app.
-  destruct (run_sim_keeps fixed ops Hall s v Hp) as [Horig [v' Hp']].
-  remember (run fixed ops s) as s2.
+  intros Hp Ha. destruct a; try discriminate; cbn [step].
+  - destruct (with_view_keeps s (fun v0 => upd v0 o p x) v Hp) as [H1 H2]. unfold write. rewrite H1. auto.
+  - destruct (table_of k (running s)).
+    + unfold write, with_view, set_running, static. cbn [proxy]. rewrite Hp. cbn. eauto.
+    + destruct (with_view_keeps s (fun v0 => upd v0 o p x) v Hp) as [H1 H2]. unfold write. rewrite H1. auto.
+  - destruct (table_of k (running s)); unfold static, set_running; cbn; eauto.
+  - destruct (stop_keeps V k s v Hp) as [H1 H2]. rewrite H1. auto.
+  - destruct (stop_all_keeps V s v Hp) as [H1 H2]. rewrite H1. auto.
+  - unfold static, create. rewrite Hp. cbn. split; [eauto|].
+    intros o' Hc p. unfold set_row. rewrite Nat.eqb_sym. apply negb_true_iff in Hc. rewrite Hc. reflexivity.
+  - unfold static, set_ns. cbn. eauto.
+  - unfold static, set_ns. cbn. eauto.
+Qed.
+
+Lemma run_keeps V ops : forall s v, proxy s = Some v -> forallb not_begin_finish ops = true ->
+  static s (run V ops s) /\
+  forall o, forallb (not_create o) ops = true -> forall p, orig (run V ops s) o p = orig s o p.
+Proof.
+  induction ops as [|a ops IH]; intros s v Hp Hall; [cbn; unfold static; eauto|].
+  cbn [forallb] in Hall. apply andb_true_iff in Hall as [Ha Hall].
+  destruct (step_keeps V s a v Hp Ha) as [[H1 [H2 [v' H3]]] H4].
+  change (run V (a :: ops) s) with (run V ops (step V s a)).
+  destruct (IH _ _ H3 Hall) as [[G1 [G2 G3]] G4]. split.
+  - unfold static. rewrite G1, G2, H1, H2. auto.
+  - intros o Hc p. cbn [forallb] in Hc. apply andb_true_iff in Hc as [Hc1 Hc2].
+    rewrite (G4 o Hc2 p). apply H4. exact Hc1.
+Qed.
+
+Lemma finish_keeps s v : proxy s = Some v ->
+  orig (step fixed s Finish) = orig s /\ ns (step fixed s Finish) = ns_orig s.
+Proof.
+  intros Hp. cbn [step fixed proxies_dropped_first]. cbn [orig ns drop_proxies].
+  destruct (stop_all_keeps fixed s v Hp) as [H1 _]. auto.
+Qed.
+
+Lemma sim_op_split n a : sim_op n a = true ->
+  not_begin_finish a = true /\ forall o, (o < n)%nat -> not_create o a = true.
+Proof.
+  destruct a; cbn; try discriminate; auto. intros H. split; [reflexivity|].
+  intros o' Hlt. apply Nat.leb_le in H. apply negb_true_iff. apply Nat.eqb_neq. lia.
+Qed.
+
+Lemma sim_ops_split n ops : forallb (sim_op n) ops = true ->
+  forallb not_begin_finish ops = true /\ forall o, (o < n)%nat -> forallb (not_create o) ops = true.
+Proof.
+  induction ops as [|a ops IH]; cbn [forallb]; [auto|]. intros H. apply andb_true_iff in H as [Ha H].
+  destruct (sim_op_split n a Ha) as [A1 A2]. destruct (IH H) as [B1 B2]. split.
+  - now rewrite A1, B1.
+  - intros o Hlt. now rewrite (A2 o Hlt), (B2 o Hlt).
+Qed.
+
+(* Whatever the simulation does (writes by behaviours, compose blocks and the simulator, overrides
+   from any scenario of the tree, sub-scenarios starting and stopping in any order, objects created
+   on the way, globals assigned by behaviours or rebound by requirement closures) and however it
+   ends, every object of the scene reads the same afterwards and the behaviours' namespace is the
+   one the scene was made with. *)
+Theorem scene_untouched n ops v0 g0 gs : forallb (sim_op n) ops = true ->
+  let s' := run fixed (Begin :: ops ++ [Finish]) (init v0 g0 gs) in
+  (forall o p, (o < n)%nat -> orig s' o p = v0 o p) /\ ns s' = g0.
+Proof.
+  intros Hall. destruct (sim_ops_split n ops Hall) as [Hnb Hnc]. cbn zeta.
+  change (run fixed (Begin :: ops ++ [Finish]) (init v0 g0 gs))
+    with (run fixed (ops ++ [Finish]) (step fixed (init v0 g0 gs) Begin)).
+  rewrite run_app. set (s1 := step fixed (init v0 g0 gs) Begin).
+  assert (Hp1 : proxy s1 = Some v0) by reflexivity.
+  destruct (run_keeps fixed ops s1 v0 Hp1 Hnb) as [[G1 [G2 [v' G3]]] G4].
+  remember (run fixed ops s1) as s2.
   change (run fixed [Finish] s2) with (step fixed s2 Finish).
-  cbn [step fixed proxies_dropped_first].
-  unfold drop_proxies, stop_all, set_stack, with_view. rewrite Hp'. cbn. exact Horig.
+  destruct (finish_keeps s2 v' G3) as [F1 F2]. rewrite F1, F2. split.
+  - intros o p Hlt. rewrite (G4 o (Hnc o Hlt) p). reflexivity.
+  - rewrite G1. reflexivity.
 Qed.
 
-Theorem scene_untouched ops v0 : forallb sim_op ops = true ->
-  orig (run fixed (Begin :: ops ++ [Finish]) (init v0)) = v0.
+(* an object created during the run reads, after the end, the values it was created with,
+   whatever was assigned to it or overridden on it during the run *)
+Theorem created_object_untouched ops1 ops2 ob vals v0 g0 gs :
+  forallb not_begin_finish ops1 = true -> forallb not_begin_finish ops2 = true ->
+  forallb (not_create ob) ops2 = true ->
+  forall p, orig (run fixed (Begin :: ops1 ++ Create ob vals :: ops2 ++ [Finish]) (init v0 g0 gs)) ob p = nth p vals 0.
 Proof.
-  intros Hall. change (run fixed (Begin :: ops ++ [Finish]) (init v0))
-    with (run fixed (ops ++ [Finish]) (step fixed (init v0) Begin)).
-  rewrite (finish_after_sim ops _ v0 Hall); reflexivity.
+  intros H1 H2 H3 p.
+  change (run fixed (Begin :: ops1 ++ Create ob vals :: ops2 ++ [Finish]) (init v0 g0 gs))
+    with (run fixed (ops1 ++ Create ob vals :: ops2 ++ [Finish]) (step fixed (init v0 g0 gs) Begin)).
+  rewrite run_app. set (s1 := step fixed (init v0 g0 gs) Begin).
+  assert (Hp1 : proxy s1 = Some v0) by reflexivity.
+  destruct (run_keeps fixed ops1 s1 v0 Hp1 H1) as [[_ [_ [v' G3]]] _].
+  remember (run fixed ops1 s1) as s2.
+  change (run fixed (Create ob vals :: ops2 ++ [Finish]) s2) with (run fixed (ops2 ++ [Finish]) (step fixed s2 (Create ob vals))).
+  rewrite run_app. set (s3 := step fixed s2 (Create ob vals)).
+  assert (Hp3 : proxy s3 = Some (set_row v' ob vals)) by (unfold s3; cbn [step]; unfold create; rewrite G3; reflexivity).
+  destruct (run_keeps fixed ops2 s3 _ Hp3 H2) as [[_ [_ [v'' K3]]] K4].
+  remember (run fixed ops2 s3) as s4.
+  change (run fixed [Finish] s4) with (step fixed s4 Finish).
+  destruct (finish_keeps s4 v'' K3) as [F1 _]. rewrite F1, (K4 ob H3 p).
+  unfold s3. cbn [step create orig]. unfold set_row. rewrite Nat.eqb_refl. reflexivity.
 Qed.
 
 Theorem state_reset V ops s :
-  let s' := run V (ops ++ [Finish]) s in active s' = false /\ proxy s' = None /\ stack s' = [].
+  let s' := run V (ops ++ [Finish]) s in
+  active s' = false /\ proxy s' = None /\ running s' = [] /\ ns s' = ns_orig s'.
 Proof. cbn. rewrite run_app. cbn. auto. Qed.
 
-(* ---------- overrides are undone when their scenario ends ---------- *)
+(* the next simulation starts with an empty override table for the top-level scenario *)
+Theorem fresh_tables ops s :
+  running (step fixed (run fixed (ops ++ [Finish]) s) Begin) = [{| sid := 0%nat; spar := 0%nat; stab := [] |}].
+Proof. rewrite run_app. cbn. reflexivity. Qed.
+
+(* a requirement closure reads the scene's sample whatever happened to the globals before *)
+Theorem nsbind_reads_sample V s l n : existsb (Nat.eqb n) l = true -> ns (step V s (NsBind l)) n = ns_samp s n.
+Proof. intros H. cbn. rewrite H. reflexivity. Qed.
+
+(* ---------- override tables ---------- *)
 Lemma find_app o p a b : find o p (a ++ b) = match find o p a with Some y => Some y | None => find o p b end.
 Proof.
   induction a as [|[[o' p'] x] a IH]; [reflexivity|]. cbn [app find].
@@ -87,72 +179,219 @@ Qed.
 Lemma read_with_view s f : read (with_view s f) = f (read s).
 Proof. unfold read, with_view. destruct (proxy s); reflexivity. Qed.
 
-Lemma read_set_stack s k : read (set_stack s k) = read s.
-Proof. reflexivity. Qed.
+Lemma running_with_view s f : running (with_view s f) = running s.
+Proof. unfold with_view. destruct (proxy s); reflexivity. Qed.
 
-Lemma stack_write s o p x : stack (write s o p x) = stack s.
-Proof. unfold write. destruct (proxy s); reflexivity. Qed.
-
-Lemma seg_table seg : forallb seg_op seg = true -> forall s top rest, stack s = top :: rest ->
-  exists top', stack (run fixed seg s) = top' :: rest /\
-    forall o p, find o p top' = match find o p top with Some y => Some y | None => first_ov fixed seg s o p end.
+Lemma table_of_set_table k k' t r :
+  table_of k (set_table k' t r) =
+  if Nat.eqb k' k then match table_of k' r with Some _ => Some t | None => None end else table_of k r.
 Proof.
-  induction seg as [|a seg IH]; intros Hall s top rest Hs.
-  - exists top. split; [exact Hs|]. intros o p. cbn. destruct (find o p top); reflexivity.
-  - cbn [forallb] in Hall. apply andb_true_iff in Hall as [Ha Hall].
-    change (run fixed (a :: seg) s) with (run fixed seg (step fixed s a)).
-    destruct a as [|o' p' x|o' p' x| | |]; try discriminate.
-    + (* Write *)
-      assert (Hs' : stack (step fixed s (Write o' p' x)) = top :: rest) by (cbn [step]; now rewrite stack_write).
-      destruct (IH Hall _ _ _ Hs') as [top' [H1 H2]]. exists top'. split; [exact H1|]. exact H2.
-    + (* Override *)
-      assert (Hs' : stack (step fixed s (Override o' p' x)) = setdefault top o' p' (read s o' p') :: rest).
-      { cbn [step fixed first_only]. rewrite Hs. now rewrite stack_write. }
-      destruct (IH Hall _ _ _ Hs') as [top' [H1 H2]]. exists top'. split; [exact H1|].
-      intros o p. rewrite H2, find_setdefault. cbn [first_ov].
-      destruct (find o p top); [reflexivity|].
-      destruct (Nat.eqb o' o && Nat.eqb p' p) eqn:Eq; [|reflexivity].
-      apply andb_true_iff in Eq as [Ho Hp]. apply Nat.eqb_eq in Ho, Hp. subst. reflexivity.
+  induction r as [|c r IH]; cbn [set_table table_of].
+  - destruct (Nat.eqb k' k); reflexivity.
+  - destruct (Nat.eqb_spec (sid c) k') as [E1|E1]; cbn [table_of sid stab].
+    + destruct (Nat.eqb_spec k' k) as [E2|E2]; destruct (Nat.eqb_spec (sid c) k) as [E3|E3];
+        try reflexivity; exfalso; congruence.
+    + rewrite IH. destruct (Nat.eqb_spec k' k) as [E2|E2]; destruct (Nat.eqb_spec (sid c) k) as [E3|E3];
+        try reflexivity; exfalso; congruence.
 Qed.
 
-(* A scenario that starts, runs any statements (assignments and overrides) and stops leaves every
-   property it overrode with the value it had just before the scenario first overrode it; a
-   property it did not override keeps whatever was last written; the scenario stack is as before. *)
-Theorem override_undone seg s : forallb seg_op seg = true ->
-  let s1 := step fixed s Push in
-  let s' := run fixed (Push :: seg ++ [Pop]) s in
-  stack s' = stack s /\
-  forall o p, read s' o p = match first_ov fixed seg s1 o p with
-                           | Some x => x
-                           | None => read (run fixed seg s1) o p end.
+Lemma table_of_filter (g:nat -> bool) k r :
+  table_of k (filter (fun c => g (sid c)) r) = if g k then table_of k r else None.
 Proof.
-  intros Hall s1 s'. subst s'.
-  change (run fixed (Push :: seg ++ [Pop]) s) with (run fixed (seg ++ [Pop]) s1). rewrite run_app.
-  assert (Hs1 : stack s1 = [] :: stack s) by reflexivity.
-  destruct (seg_table seg Hall s1 [] (stack s) Hs1) as [top' [H1 H2]].
-  remember (run fixed seg s1) as s2.
-  change (run fixed [Pop] s2) with (step fixed s2 Pop). cbn [step]. rewrite H1.
-  split; [reflexivity|].
-  intros o p. rewrite read_set_stack, read_with_view, read_revert, H2. cbn [find]. reflexivity.
+  induction r as [|c r IH]; cbn [filter table_of]; [destruct (g k); reflexivity|].
+  destruct (Nat.eqb_spec (sid c) k) as [E|E].
+  - subst k. destruct (g (sid c)) eqn:G; cbn [table_of].
+    + rewrite Nat.eqb_refl. reflexivity.
+    + rewrite IH; try rewrite G; reflexivity.
+  - destruct (g (sid c)); cbn [table_of]; [|exact IH].
+    destruct (Nat.eqb_spec (sid c) k); [contradiction|exact IH].
 Qed.
 
-(* ---------- the pre-fix variants violate the property (documentation of F6 and F18) ---------- *)
+Lemma stop_table V k' k s :
+  table_of k (running (stop V k' s)) = None \/ table_of k (running (stop V k' s)) = table_of k (running s).
+Proof.
+  unfold stop. destruct (table_of k' (running s)); [|auto].
+  cbn [running set_toptab set_running]. unfold remove_ids.
+  rewrite (table_of_filter (fun i => negb (existsb (Nat.eqb i) _)) k (running s)).
+  match goal with |- context [if ?b then _ else _] => destruct b end; auto.
+Qed.
+
+Lemma stops_table V k l : forall s,
+  let s' := fold_left (fun acc c => stop V (sid c) acc) l s in
+  table_of k (running s') = None \/ table_of k (running s') = table_of k (running s).
+Proof.
+  induction l as [|c l IH]; intros s; cbn; [auto|].
+  destruct (IH (stop V (sid c) s)) as [H|H]; cbn in H; [auto|].
+  rewrite H. apply stop_table.
+Qed.
+
+Definition table_after (s:state) (a:op) (k:nat) : option saved :=
+  match a with
+  | Override k' o p x =>
+      if Nat.eqb k' k then match table_of k (running s) with
+                           | Some t => Some (setdefault t o p (read s o p))
+                           | None => None end
+      else table_of k (running s)
+  | _ => table_of k (running s)
+  end.
+
+Lemma step_table s a k : not_begin_finish a = true -> not_start k a = true ->
+  table_of k (running (step fixed s a)) = None \/ table_of k (running (step fixed s a)) = table_after s a k.
+Proof.
+  intros Ha Hs. destruct a; try discriminate; cbn [step table_after fixed first_only].
+  - right. unfold write. now rewrite running_with_view.
+  - right. destruct (Nat.eqb_spec k0 k) as [E|E].
+    + subst k0. destruct (table_of k (running s)) eqn:T.
+      * unfold write. rewrite running_with_view. cbn [running set_running].
+        rewrite table_of_set_table, Nat.eqb_refl, T. reflexivity.
+      * unfold write. rewrite running_with_view. exact T.
+    + destruct (table_of k0 (running s)) eqn:T.
+      * unfold write. rewrite running_with_view. cbn [running set_running].
+        rewrite table_of_set_table. destruct (Nat.eqb_spec k0 k); [contradiction|reflexivity].
+      * unfold write. now rewrite running_with_view.
+  - right. cbn [not_start] in Hs. apply negb_true_iff in Hs.
+    destruct (table_of k0 (running s)); [reflexivity|]. cbn [running set_running table_of sid].
+    rewrite Hs. reflexivity.
+  - apply stop_table.
+  - unfold stop_all. apply stops_table.
+  - right. reflexivity.
+  - right. reflexivity.
+  - right. reflexivity.
+Qed.
+
+Lemma table_after_none s a k : table_of k (running s) = None -> table_after s a k = None.
+Proof. intros H. destruct a; cbn [table_after]; try exact H. rewrite H. destruct (Nat.eqb k0 k); reflexivity. Qed.
+
+Lemma none_stays k ops : forall s, table_of k (running s) = None ->
+  forallb not_begin_finish ops = true -> forallb (not_start k) ops = true ->
+  table_of k (running (run fixed ops s)) = None.
+Proof.
+  induction ops as [|a ops IH]; intros s Hn H1 H2; [exact Hn|].
+  cbn [forallb] in H1, H2. apply andb_true_iff in H1 as [A1 H1]. apply andb_true_iff in H2 as [A2 H2].
+  change (run fixed (a :: ops) s) with (run fixed ops (step fixed s a)).
+  apply IH; [|exact H1|exact H2].
+  destruct (step_table s a k A1 A2) as [H|H]; [exact H|]. rewrite H. now apply table_after_none.
+Qed.
+
+(* the table of a scenario that is still running holds, for every property it has overridden since
+   some earlier point, the value read just before its first override — whatever else happened *)
+Lemma seg_table k ops : forall s t t', table_of k (running s) = Some t ->
+  forallb not_begin_finish ops = true -> forallb (not_start k) ops = true ->
+  table_of k (running (run fixed ops s)) = Some t' ->
+  forall o p, find o p t' = match find o p t with Some y => Some y | None => first_ov fixed k ops s o p end.
+Proof.
+  induction ops as [|a ops IH]; intros s t t' Ht H1 H2 Ht' o p.
+  - cbn in Ht'. rewrite Ht in Ht'. injection Ht' as <-. cbn. destruct (find o p t); reflexivity.
+  - cbn [forallb] in H1, H2. apply andb_true_iff in H1 as [A1 H1]. apply andb_true_iff in H2 as [A2 H2].
+    change (run fixed (a :: ops) s) with (run fixed ops (step fixed s a)) in Ht'.
+    destruct (step_table s a k A1 A2) as [H|H].
+    + rewrite (none_stays k ops _ H H1 H2) in Ht'. discriminate.
+    + assert (G : forall t1, table_after s a k = Some t1 ->
+                  find o p t' = match find o p t1 with Some y => Some y | None => first_ov fixed k ops (step fixed s a) o p end).
+      { intros t1 E. rewrite E in H. exact (IH _ _ _ H H1 H2 Ht' o p). }
+      destruct a; try discriminate; cbn [table_after first_ov] in *; try (rewrite (G t Ht); reflexivity).
+      destruct (Nat.eqb_spec k0 k) as [E|E]; cbn [andb].
+      * rewrite Ht in G. rewrite (G _ eq_refl), find_setdefault.
+        destruct (find o p t); [reflexivity|].
+        destruct (Nat.eqb o0 o && Nat.eqb p0 p) eqn:Eq; [|reflexivity].
+        apply andb_true_iff in Eq as [Ho Hp]. apply Nat.eqb_eq in Ho, Hp. subst. reflexivity.
+      * rewrite (G t Ht). reflexivity.
+Qed.
+
+Lemma stop_order_last f r k : exists l, stop_order fixed f r k = l ++ [k].
+Proof. destruct f; cbn [stop_order fixed own_before_subs]; [exists []; reflexivity|eauto]. Qed.
+
+(* when a scenario stops, its own table is written back LAST: every property it has overridden
+   reads the saved value, whatever its sub-scenarios had overridden *)
+Lemma own_overrides_undone s k t : table_of k (running s) = Some t ->
+  forall o p x, find o p t = Some x -> read (step fixed s (Stop k)) o p = x.
+Proof.
+  intros Ht o p x Hf. cbn [step]. unfold stop. rewrite Ht.
+  change (read (set_toptab (set_running (with_view s ?f) ?r) ?tt)) with (read (with_view s f)).
+  rewrite read_with_view.
+  destruct (stop_order_last (length (running s)) (running s) k) as [l ->].
+  unfold revert_ids. rewrite fold_left_app. cbn [fold_left]. rewrite Ht, read_revert, Hf. reflexivity.
+Qed.
+
+(* EVERY override is undone when its scenario ends: scenario k starts, then anything happens
+   (assignments, overrides by k and by any other scenario or behaviour, other scenarios —
+   siblings, sub-scenarios of k or of others — starting and stopping in any order, objects
+   created, globals assigned), then k stops (by itself, or because an ancestor stops): every
+   property k has overridden reads the value it had just before k first overrode it. *)
+Theorem override_undone k par seg s :
+  table_of k (running s) = None ->
+  forallb not_begin_finish seg = true -> forallb (not_start k) seg = true ->
+  let s1 := step fixed s (Start k par) in
+  let s2 := run fixed seg s1 in
+  table_of k (running s2) <> None ->
+  forall o p x, first_ov fixed k seg s1 o p = Some x -> read (step fixed s2 (Stop k)) o p = x.
+Proof.
+  intros Hn H1 H2 s1 s2 Hrun o p x Hf.
+  assert (Ht1 : table_of k (running s1) = Some []).
+  { unfold s1. cbn [step]. rewrite Hn. cbn [running set_running table_of sid stab]. now rewrite Nat.eqb_refl. }
+  destruct (table_of k (running s2)) as [t'|] eqn:Ht2; [|contradiction].
+  apply (own_overrides_undone s2 k t' Ht2).
+  rewrite (seg_table k seg s1 [] t' Ht1 H1 H2 Ht2 o p). cbn [find]. exact Hf.
+Qed.
+
+(* ---------- witnesses: variants and orders that violate the property ---------- *)
 Definition v0 : view := fun o p => (Z.of_nat o * 10 + Z.of_nat p + 1).
-Definition old_finally := {| proxies_dropped_first := true; first_only := false |}.
-Definition old_override := {| proxies_dropped_first := false; first_only := true |}.
+Definition g0 : nat -> Z := fun _ => (-1).
+Definition gs : nat -> Z := fun n => Z.of_nat n + 2.
+Definition old_finally := {| proxies_dropped_first := true; first_only := false; own_before_subs := false; stale_top := false |}.
+Definition old_override := {| proxies_dropped_first := false; first_only := true; own_before_subs := false; stale_top := false |}.
+Definition own_first := {| proxies_dropped_first := false; first_only := false; own_before_subs := true; stale_top := false |}.
+Definition stale := {| proxies_dropped_first := false; first_only := false; own_before_subs := false; stale_top := true |}.
 
 (* F18: a behaviour assigns foo, a sub-scenario overrides foo, the run is aborted: the aborted
    run's revert lands in the scene *)
 Lemma old_finally_refuted :
-  orig (run old_finally [Begin; Write 0 0 3; Push; Override 0 0 5; Finish] (init v0)) 0%nat 0%nat <> v0 0%nat 0%nat.
+  orig (run old_finally [Begin; Write 0 0 3; Start 1 0; Override 1 0 0 5; Finish] (init v0 g0 gs)) 0%nat 0%nat <> v0 0%nat 0%nat.
 Proof. vm_compute. discriminate. Qed.
 
 (* F6: two override statements on one object in one scenario: the second is never undone *)
 Lemma old_override_refuted :
-  read (run old_override [Begin; Push; Override 0 0 5; Override 0 1 20; Pop] (init v0)) 0%nat 1%nat <> v0 0%nat 1%nat.
+  read (run old_override [Begin; Start 1 0; Override 1 0 0 5; Override 1 0 1 20; Stop 1] (init v0 g0 gs)) 0%nat 1%nat <> v0 0%nat 1%nat.
+Proof. vm_compute. discriminate. Qed.
+
+(* a _stop that reverts its own table before stopping its sub-scenarios: nested overrides of one
+   property, the outer scenario stopped from outside: the parent reads the outer override again *)
+Lemma own_first_refuted :
+  read (run own_first [Begin; Start 1 0; Override 1 0 0 5; Start 2 1; Override 2 0 0 7; Stop 1] (init v0 g0 gs)) 0%nat 0%nat <> v0 0%nat 0%nat.
+Proof. vm_compute. discriminate. Qed.
+
+(* the top-level scenario object survives the simulation; if its table is not emptied, the next
+   simulation of the same scene "reverts" values saved by the previous one when it ends *)
+Lemma stale_refuted :
+  read (run stale [Begin; Write 0 0 184; Override 0 0 0 5; Finish; Begin; Write 0 0 123; StopAll] (init v0 g0 gs)) 0%nat 0%nat <> 123.
+Proof. vm_compute. discriminate. Qed.
+
+(* PARALLEL siblings overriding the same property (current code): the one started first ends
+   first -> the other one's revert re-installs the first one's overriding value *)
+Lemma siblings_refuted :
+  read (run fixed [Begin; Start 1 0; Override 1 0 0 10; Start 2 0; Override 2 0 0 20; Stop 1; Stop 2] (init v0 g0 gs)) 0%nat 0%nat <> v0 0%nat 0%nat.
+Proof. vm_compute. discriminate. Qed.
+(* ... and likewise when their parent is stopped while both run (sub-scenarios are stopped oldest first) *)
+Lemma siblings_parent_refuted :
+  read (run fixed [Begin; Start 3 0; Start 1 3; Override 1 0 0 10; Start 2 3; Override 2 0 0 20; Stop 3] (init v0 g0 gs)) 0%nat 0%nat <> v0 0%nat 0%nat.
 Proof. vm_compute. discriminate. Qed.
 
 Example fixed_on_witnesses :
-  orig (run fixed [Begin; Write 0 0 3; Push; Override 0 0 5; Finish] (init v0)) 0%nat 0%nat = v0 0%nat 0%nat /\
-  read (run fixed [Begin; Push; Override 0 0 5; Override 0 1 20; Pop] (init v0)) 0%nat 1%nat = v0 0%nat 1%nat.
-Proof. vm_compute. split; reflexivity. Qed.
+  orig (run fixed [Begin; Write 0 0 3; Start 1 0; Override 1 0 0 5; Finish] (init v0 g0 gs)) 0%nat 0%nat = v0 0%nat 0%nat /\
+  read (run fixed [Begin; Start 1 0; Override 1 0 0 5; Override 1 0 1 20; Stop 1] (init v0 g0 gs)) 0%nat 1%nat = v0 0%nat 1%nat /\
+  read (run fixed [Begin; Start 1 0; Override 1 0 0 5; Start 2 1; Override 2 0 0 7; Stop 1] (init v0 g0 gs)) 0%nat 0%nat = v0 0%nat 0%nat /\
+  read (run fixed [Begin; Write 0 0 184; Override 0 0 0 5; Finish; Begin; Write 0 0 123; StopAll] (init v0 g0 gs)) 0%nat 0%nat = 123 /\
+  read (run fixed [Begin; Start 1 0; Override 1 0 0 10; Start 2 0; Override 2 0 0 20; Stop 2; Stop 1] (init v0 g0 gs)) 0%nat 0%nat = v0 0%nat 0%nat.
+Proof. vm_compute. repeat split; reflexivity. Qed.
+
+(* non-vacuity of override_undone: a history with a sibling, a sub-scenario, a behaviour's override
+   (scenario 0) and a created object satisfies its hypotheses, and scenario 1 has overridden something *)
+Example override_undone_nonvacuous :
+  let seg := [Override 1 0 0 5; Start 2 0; Override 2 0 1 6; Start 3 1; Override 3 0 0 7; Override 0 1 1 8;
+              Create 2 [1;2;3]; Write 0 0 9; Override 1 0 0 11; Stop 2; NsWrite 0 4] in
+  let s := run fixed [Begin] (init v0 g0 gs) in
+  let s1 := step fixed s (Start 1 0) in
+  table_of 1 (running s) = None /\ forallb not_begin_finish seg = true /\ forallb (not_start 1) seg = true /\
+  table_of 1 (running (run fixed seg s1)) <> None /\ first_ov fixed 1 seg s1 0%nat 0%nat = Some 1 /\
+  read (run fixed seg s1) 0%nat 0%nat = 11.
+Proof. vm_compute. repeat split; try reflexivity; discriminate. Qed.
